@@ -78,7 +78,7 @@ def run_instance(args):
                 if b in seen:
                     continue
                 seen.add(b)
-                cex.append({'name': o['name'], 'base': b, 'detail': o.get('detail', ''), 'model': o.get('model'), 'path': pi})
+                cex.append({'name': o['name'], 'base': b, 'detail': o.get('detail', ''), 'model': o.get('model'), 'alt_models': o.get('alt_models') or [], 'path': pi})
         unknown = [{'name': o['name'], 'detail': o.get('detail', '')} for _, o in obs if o['status'] == 'unknown'][:5]
         status = 'ok'
         why = []
@@ -202,6 +202,13 @@ def main(argv=None):
         reps = list(tp.map(lambda rc: replay_subprocess(pid, rc[0]['instance'], rc[1]['model']), todo))
     for (r, c), rp in zip(todo, reps):
         c['replay'] = rp
+        if not rp.get('reproduced'):
+            # z3's model may sit on a tolerance boundary floats cannot resolve: try the generic candidate(s) as well
+            for am in c.get('alt_models') or []:
+                rp2 = replay_subprocess(pid, r['instance'], am)
+                if rp2.get('reproduced'):
+                    c['model'], c['replay'] = am, rp2
+                    break
     for r in results:
         for c in r.get('cex', []):
             key = '%s::%s' % (r['instance'], c['base'])
